@@ -85,7 +85,7 @@ class C01(Check):
             'the low and of the high half of the debug id on two bases, (d) all ordered sequences of <=3 decodes over a '
             'pool of 8 records that share sub-fields (result must equal the solo decode), (e) all ordered triples over a 9-record pool '
             'reached through the container parsers (a v2 dump; v3 dumps for every composition of the 3 records into 1..3 chunks; two '
-            'v2 parses alive at once under every interleaving; records beginning with the v2 magic / a v3 tag; inter-chunk fillers of 4060..4099 bytes; chunks of 255..258 and 300 records next to another chunk; dumps that begin 1..4100 bytes into the stream), (f) every event id of the bundled code table (thorough: under each of the 4 qualifiers) as the first and third record of a 4-record dump whose later records carry OLDER timestamps, through a v2 dump, a two-chunk v3 dump and the facade listing. Oracle: independent byte-slicing '
+            'v2 parses alive at once under every interleaving; records beginning with the v2 magic / a v3 tag; inter-chunk fillers of 4060..4099 bytes; chunks of 255..258 and 300 records next to another chunk; dumps that begin 1..4100 bytes into the stream; fillers ending with the first 1..6 bytes of the tag that follows), (f) every event id of the bundled code table (thorough: under each of the 4 qualifiers) as the first and third record of a 4-record dump whose later records carry OLDER timestamps, through a v2 dump, a two-chunk v3 dump and the facade listing. Oracle: independent byte-slicing '
             'decoder, the algebraic clauses, rebuild of the first 52 bytes, single-bit non-interference. Distinct by '
             'construction per sub-space; non-trivial = the record differs from its base (or, for histories, has length >=2).')
     assumptions = ('2^512 records are not enumerable: a special case keyed on a specific value outside the enumerated shapes '
@@ -267,6 +267,21 @@ class C01(Check):
                     acc.case(nontrivial=True, transitions=3)
                     if got != exp:
                         acc.violation('record-decoded-differently-through-container:' + label, {'kind': 'container-offset', 'offset': off, 'label': label}, {'got': repr(got)[:200]})
+            # fillers that END with the first 1..6 bytes of the tag that follows them (a scanner that does not fall back after a
+            # partial match misses the tag)
+            recs = [P[0], P[1], P[2]]
+            exp = [ref_decode(r) for r in recs]
+            for j in range(1, 7):
+                for label, kw in (('v3-filler-ends-with-sentinel-prefix', dict(filler1=b'qq' + B.STACKSHOT_END[:j])),
+                                  ('v3-filler-ends-with-threadmap-tag-prefix', dict(filler2=b'qq' + B.TAG_THREADMAP[:j])),
+                                  ('v3-gap-ends-with-events-tag-prefix', dict(gap=b'qq' + B.TAG_EVENTS[:j]))):
+                    try:
+                        got = events(B.v3([(1, 2, 'a')], [recs[:1], recs[1:]], **kw))
+                    except Exception as ex:
+                        got = repr(ex)
+                    acc.case(nontrivial=True, transitions=3)
+                    if got != exp:
+                        acc.violation('record-decoded-differently-through-container:' + label, {'kind': 'container-tagprefix', 'j': j, 'label': label}, {'got': repr(got)[:200]})
             # a dump cut in the middle of a record (parsing it raises), then a complete dump, in the same process
             for cut in (1, 20, 63, 64 + 31):
                 whole = B.v2([], 0, [P[0], P[1], P[2]])
